@@ -124,6 +124,7 @@ def sign_events(prog, env, model, provider, alg_name):
 def check_sign_agreement(chk, prog, env, model):
     n = 0
     bad = 0
+    chk.sign_ok = {}
     provs = [p for p in H.providers(prog) if p in ('openssl', 'gnutls')]
     for alg_name in ALGS:
         fam, _, hbits, scheme = ALGS[alg_name]
@@ -142,6 +143,7 @@ def check_sign_agreement(chk, prog, env, model):
                 chk.add(Finding('C12.sign-scheme', pu.name, '%s_sign' % provider, 'no-success-path[%s]' % alg_name,
                                 'provider %s has no successful path for %s' % (provider, alg_name)))
                 continue
+            chk.sign_ok[(provider, alg_name)] = len(ok_paths)
             for s, rv in ok_paths:
                 problems = []
                 if provider == 'openssl':
@@ -198,6 +200,29 @@ def check_sign_agreement(chk, prog, env, model):
                                     'alg=%s provider=%s: %s' % (alg_name, provider, p)))
     chk.rule('C12.sign-scheme', 'per algorithm, the signer of each provider selects the RFC 7518 hash and scheme (so providers agree with each '
                                 'other and with the verifiers checked by C01)', n, bad, floor=25)
+
+
+def check_verifier_support(chk, prog, rulename):
+    """what a provider's signer can produce, the verifier of every provider that implements the algorithm must be able to accept:
+    an algorithm whose verifier has no accepting path at all makes every token of that algorithm fail"""
+    so, va = getattr(chk, 'sign_ok', None), getattr(chk, 'verify_accepts', None)
+    if so is None or va is None:
+        return
+    n = 0
+    bad = 0
+    provs = sorted(set(p for p, _ in so))
+    for (sp, alg), k in sorted(so.items()):
+        for vp in provs:
+            if (vp, alg) not in so:
+                continue        # that provider does not implement the algorithm in either direction (GnuTLS: ES256K)
+            n += 1
+            if not va.get((vp, alg)):
+                bad += 1
+                chk.add(Finding(rulename, 'libjwt/%s/sign-verify.c' % vp, '%s_verify' % vp, 'no-accepting-path[%s]' % alg,
+                                'alg=%s: the %s signer produces signatures but the %s verifier has no path that accepts one'
+                                % (alg, sp, vp)))
+    chk.rule(rulename, 'every algorithm a provider can sign has an accepting path in the verifier of every provider that implements it',
+             n, bad, floor=25)
 
 
 def check_selection(chk, prog, env, model, tabs):
@@ -292,6 +317,7 @@ def run(chk, prog, tier):
     tabs = check_tables(chk, prog, env)
     chk.guard('signer schemes', check_sign_agreement, chk, prog, env, model)
     chk.guard('verdict gate', c01.check_gate, chk, prog, env, model)
+    check_verifier_support(chk, prog, 'C12.verifier-support')
     chk.guard('provider selection', check_selection, chk, prog, env, model, tabs)
     chk.assumptions += ['byte-identical tokens and cross-acceptance of signatures are runtime crypto and NOT decided; equal verdicts on mutated '
                         'tokens only in as far as the verdict gate implies', 'GnuTLS refusing ES256K is documented behaviour, not a disagreement']
